@@ -74,6 +74,7 @@ Fixpoint shift_expr (d : N) (e : expr) {struct e} : expr :=
   | EStrtol a b => EStrtol (shift_expr d a) (shift_expr d b)
   | ESubst a b c => ESubst (shift_expr d a) (shift_expr d b) (shift_expr d c)
   | ERsubst p b c => ERsubst p (shift_expr d b) (shift_expr d c)
+  | EIncr dc m ks => EIncr dc m (shift_exprs d ks)
   | _ => e
   end
 with shift_exprs (d : N) (ks : exprs) {struct ks} : exprs :=
@@ -86,7 +87,7 @@ Fixpoint nstr_expr (e : expr) {struct e} : N :=
   | EArith _ _ a b | EBit _ a b | ECmp _ _ _ a b | EAnd a b | EOr a b | EStrtol a b | ERsubst _ a b =>
       nstr_expr a + nstr_expr b
   | ESubst a b c => nstr_expr a + nstr_expr b + nstr_expr c
-  | EGet _ ks => nstr_exprs ks
+  | EGet _ ks | EIncr _ _ ks => nstr_exprs ks
   | _ => 0
   end
 with nstr_exprs (ks : exprs) {struct ks} : N :=
@@ -159,6 +160,9 @@ Fixpoint cexpr (pc : nat) (e : expr) {struct e} : list instr :=
       c2 ++ c3 ++ [ins Push (OInt (zn pid)); ins Rsubst (OInt 3)]
   | ETimestamp => [ins Timestamp (OInt 0)]
   | EGetfilename => [ins Getfilename (OInt 0)]
+  | EIncr dec m ks =>
+      cexprs pc ks ++ [ins Mload (OInt (zn m)); ins Dload (OInt (zl (exprs_len ks)));
+                       ins (if dec then Dec else Inc) ONil]
   end
 with cexprs (pc : nat) (ks : exprs) {struct ks} : list instr :=
   match ks with
